@@ -125,7 +125,8 @@ def values(rng, thorough):
     vs = [I(I64_MIN), I(-1), U(0), U(1), U(5), I(5), U(I64_MAX), I(I64_MAX), U(2 ** 63), U(U64_MAX), I(-5), U(6), U(4),
           Fl(fbits(0.0)), Fl(fbits(-0.0)), Fl(fbits(0.5)), Fl(fbits(1.5)), Fl(fbits(-1.5)), Fl(fbits(2.5)), Fl(fbits(-2.5)),
           Fl(fbits(5.0)), Fl(fbits(4.5)), Fl(fbits(5.5)), Fl(fbits(float(2 ** 53 + 2))), Fl(fbits(float(2 ** 53 - 1))),
-          Fl(fbits(1e30)), Fl(fbits(-1e30)), Fl(fbits(9223372036854775808.0)), Fl(fbits(-9223372036854775808.0)),
+          Fl(fbits(1e30)), Fl(fbits(-1e30)), Fl(fbits(9223372036854775808.0)), Fl(fbits(18446744073709551616.0)),
+          Fl(fbits(9223372036854777856.0)), Fl(fbits(-9223372036854775808.0)),
           Fl(fbits(9223372036854774784.0)), Fl(fbits(float("nan"))), Fl(fbits(float("inf"))), Fl(fbits(float("-inf"))),
           Fl(fbits(5e-324)), Fl(fbits(1.7976931348623157e308)), Fl(fbits(0.49999999999999994)),
           "5", "-5", "+5", "5.0", "abc", "", " 5", "5 ", "1e3", "nan", "inf", "-inf", "Infinity", "9223372036854775807",
@@ -191,6 +192,10 @@ def run(ck):
             add({"A": {"int(f)": c}, "condition": "A"}, [expect_cast("int", "eq", c, v) for v in vals], "key_int_cast")
             add({"A": {"int(f)": ">=%d" % c}, "condition": "A"}, [expect_cast("int", "ge", c, v) for v in vals], "key_int_cast_ge")
             add({"A": {"int(f)": ["<=%d" % c]}, "condition": "A"}, [expect_cast("int", "le", c, v) for v in vals], "key_int_cast_le_list1")
+    # bare integer constants above i64::MAX (the rule language has no other way to write them)
+    for c in (2 ** 63, 2 ** 63 + 1, U64_MAX - 1, U64_MAX):
+        add({"A": {"f": c}, "condition": "A"}, [expect_pattern("eq", c, v) for v in vals], "bare_int_above_i64")
+        add({"A": {"f": [c, c]}, "condition": "A"}, [expect_pattern("eq", c, v) for v in vals], "bare_int_above_i64_list")
     for c in consts_flt():
         txt = "%.1f" % c if c < 1e20 else "%.1f" % c
         cc = float(txt)
@@ -207,6 +212,9 @@ def run(ck):
 
     send = [{k: v for k, v in c.items() if not k.startswith("_")} for c in cases]
     impl, model, _ = lib.run_cases(send, "C09")
+    known, _ = lib.load_known("C09")
+    listed = set(int(k.get("classifier", "0")) for k in known)
+    d43_hits = 0
     direct_failed = set()
     evals = 0
     nontrivial = set()
@@ -233,6 +241,11 @@ def run(ck):
             ck.count("expected:" + exp)
             if exp != "m":
                 nontrivial.add((c["rule"], repr(v)))
+            if got != exp and c["_tag"].startswith("bare_int_above_i64") and 43 in listed:
+                # listed finding D43: the constant is read as a double
+                d43_hits += 1
+                ck.count("known_class_D43")
+                continue
             if got != exp:
                 if c["id"] not in direct_failed and len(direct_failed) < 4:
                     ck.violation({"property": "C09", "kind": "direct",
@@ -240,6 +253,11 @@ def run(ck):
                                   "form": c["_tag"], "rule": c["rule"], "doc": dd, "expected": exp, "crate": got,
                                   "replay_case": {"k": "rule", "id": 1, "rule": c["rule"], "docs": [dd], "sw": [0]}})
                 direct_failed.add(c["id"])
+    if d43_hits:
+        for k in known:
+            if k.get("id") == "D43":
+                ck.known("D43", k["what"])
+    ck.coverage["suppressed_as_known"] = d43_hits
     ck.coverage["evaluations"] = evals
     ck.coverage["distinct_nontrivial"] = len(nontrivial)
     ck.coverage["exhaustive"] = True
